@@ -101,6 +101,9 @@ def rich_values():
         (set(), []),
         ({1, 2, 3}, ("SET", [1, 2, 3])),
         ({"a"}, ["a"]),
+        ({1, "one"}, ("SET", [1, "one"])),
+        ({None, 7}, ("SET", [None, 7])),
+        ({(1, 2), ("a", 1)}, ("SET", [[1, 2], ["a", 1]])),
         (complex(1.5, -2), {"real": 1.5, "imag": -2.0}),
         ([Path("/a"), {"k": d}], ["/a", {"k": "2020-02-29"}]),
         ({"s": {2}, "c": complex(0, 1)}, {"s": [2], "c": {"real": 0.0, "imag": 1.0}}),
